@@ -1,6 +1,7 @@
 import CTV.Lemmas.DerLax
 import CTV.Lemmas.DerTotal
 import CTV.Lemmas.DerHeader
+import CTV.Gen.Asn1Lax
 /-!
 # C10 — The ASN.1 fork is as strict as upstream; lax mode only adds acceptances
 
@@ -52,6 +53,14 @@ example : parseField ⟨true, true, true, true⟩ .strict .str {} [0x13, 0x02, 0
 -- neither ISO 8859-1 nor T.61: lax rejects as well
 example : ∃ e, parseField ⟨true, true, true, true⟩ .lax .str {} [0x13, 0x03, 0x41, 0x00, 0x23] = .error e := ⟨_, rfl⟩
 
+
+/-- **the places where the fork reads `lax`, regenerated.** In asn1.go the flag occurs in a branch condition in exactly
+`checkInteger`, `parseObjectIdentifier` and `parsePrintableString` (the three relaxations the model has); every call of a
+function with a `lax` parameter passes `lax` / `params.lax` on unchanged; struct fields and slice elements inherit it.
+A fourth relaxation, or a call that passes a literal, changes the regenerated lists and this `decide` fails. -/
+theorem lax_sites_regenerated :
+    Gen.laxSites = ["checkInteger", "parseObjectIdentifier", "parsePrintableString"] ∧
+    Gen.laxNotHandedDown = [] ∧ Gen.laxInherited = true := by decide
 
 /-! ## lax propagates to every nested field and element
 
@@ -113,6 +122,15 @@ theorem parse_total (d : Dialect) (m : Mode) (t : ATy) (p : FP) (bs : Bytes) (v 
     ∃ pre, bs = pre ++ rest ∧ (2 ≤ pre.length ∨ (p.optional = true ∧ pre = [])) :=
   parseField_shrinks d m t p bs v rest h
 
+/-- **parse_total (slices in range).** The content slice `parseField` takes (`bytes[offset : offset+t.length]`) has exactly the
+declared length: the `take` of the model never truncates, so the Go slice expression is in range on every accepted header,
+through explicit tags as well. (This is the part of "no panic" the model can express; that the real code does not fault
+elsewhere — reflection, nil targets — is checked by the harness only: a panic is an output class there.) -/
+theorem parse_total_in_range (d : Dialect) (t : ATy) (p : FP) (bs : Bytes) (tl : TL) (utag : Nat) (inner rest consumed : Bytes)
+    (outer : Option (Nat × Nat)) (h : header d t p bs = .ok (.body tl utag inner rest consumed outer)) :
+    inner.length = tl.len ∧ bs = consumed ++ rest :=
+  ⟨header_inner_length d t p bs tl utag inner rest consumed outer h, (header_consumed d t p bs tl utag inner rest consumed outer h).1⟩
+
 /-- the two fuel-bounded loops of the model (`parseSequenceOf`'s counting pass, `parseObjectIdentifier`'s arc
 loop) are started with `length + 1` fuel and never exhaust it: the `fuel` error is unreachable. -/
 theorem parse_total_fuel (d : Dialect) (u : Bool × Nat × Bool) (bs : Bytes) :
@@ -139,6 +157,8 @@ length = inner element; empty Flag content; parameter combinations for which `ma
 `canon` mode for every dialect and in `strict` mode once `base128RejectsLeading80` holds (it does since the F11a fix) — is byte for
 byte what `appendTagAndLength` writes for the fields that were read: identifier octets (short and high-tag-number form), length
 octets (short form, long form with minimal big-endian digits), for every class, tag number < 2^31 and length < 2^31. -/
+example : Dialect.fork.b128min = true := rfl   -- the hypothesis below holds for the fork as the working tree has it (since the F11a fix)
+
 theorem marshal_parse_header (d : Dialect) (hd : d.b128min = true) (bs : Bytes) (tl : TL) (r : Bytes)
     (h : parseTagLen d bs = .ok (tl, r)) : bs = encTagLen tl ++ r :=
   parseTagLen_roundtrip d hd bs tl r h
